@@ -125,7 +125,7 @@ def jtext(rng, v, ws):
 class C09(Prop):
     id = "C09"
     props = "C09_Props"
-    coq_files = ("Base", "C09_Consts", "C09_Model", "C09_Spec", "C09_Proofs", "C09_ProofsW", "C09_ProofsJ", "C09_Props")
+    coq_files = ("Base", "C09_Consts", "C09_Model", "C09_Spec", "C09_Proofs", "C09_ProofsW", "C09_ProofsJ", "C09_ProofsS", "C09_Props")
     models = ("C09_Model",)
     consts = ("int", "cc")
     packages = {"int": "internal", "cc": "internal/app/connectconformance"}
